@@ -10,6 +10,7 @@ standard identities (assumption A4) into the current context's fact list.
 """
 import itertools
 import math
+import os as _os
 from fractions import Fraction
 
 import z3
@@ -616,7 +617,7 @@ def resolve_dim(t):
     """Simplify an integer (shape) term that contains if-then-else by deciding its conditions with the path solver.
     Keeps array shapes syntactically canonical (e.g. the clamped slice length max(min(n,n)-min(1,n),0) becomes n-1)."""
     t = N(t)
-    if not is_z3(t) or DECIDER is None or CUR is None:
+    if not is_z3(t) or DECIDER is None or CUR is None or _os.environ.get('PYVC_NO_RESOLVE') or CUR.opts.get('no_resolve'):
         return t
     memo = CUR.cache.setdefault('dim-memo', {})
     hit = memo.get(t.get_id())
